@@ -7,6 +7,7 @@ in order, each entry once; a cancelled entry is a no-op.  The trace property its
 after all source callbacks of the first Ok dispatch, insertion order) is Spec.Core's C13 clauses.
 -/
 import Verif.Model.Loop
+import Verif.Inv.IdleQ
 
 namespace Verif.Props.C13
 open Verif.Loop
@@ -38,5 +39,14 @@ theorem insert_appends (i : Nat) (s : St) :
 theorem drop_handle_keeps_queue (i : Nat) (s : St) :
     ∃ s', execC' (.dropIdle i) s = .ok () s' ∧ s'.idles = s.idles ∧ s'.cancelled = s.cancelled := by
   refine ⟨_, rfl, rfl, rfl⟩
+
+/-! ### the whole loop -/
+
+/-- **After every history** the queued idle callbacks are pairwise distinct instances, all numbered below the loop's
+    instance counter: an idle callback is never queued twice, and since `dispatch_idles` empties the queue before it
+    runs anything (`idles_snapshot`) and new instances get new numbers, one that ran cannot come back. -/
+theorem idle_queue_fresh (ops : List Verif.Loop.Op) :
+    ((Verif.Loop.run ops).idles.map (·.2)).Nodup ∧ ∀ p ∈ (Verif.Loop.run ops).idles, p.2 < (Verif.Loop.run ops).idleSeq :=
+  Verif.Inv.IdleQ.run_idle_queue_fresh ops
 
 end Verif.Props.C13
